@@ -24,6 +24,8 @@ def parseOp : List String → Option Op
   | ["isp", t, h] => do pure (.inScope (← t.toNat?) (hk (← h.toNat?)))      -- the closure unwinds: the guard still exits
   | ["rc", _t, h] => do pure (.record (hk (← h.toNat?)))
   | ["ff", _t, h, h2] => do pure (.follows (hk (← h.toNat?)) (hk (← h2.toNat?)))
+  | ["ffg", _t, h, g] => do pure (.followsGuard (hk (← h.toNat?)) (gk (← g.toNat?)))      -- follows_from(&entered_guard)
+  | ["nsg", t, h, l, _g] => do pure (.newSpan (← t.toNat?) (hk (← h.toNat?)) (← l.toNat?))   -- explicit parent given as &entered_guard: same calls
   | ["cu", t, h] => do pure (.current (← t.toNat?) (hk (← h.toNat?)))
   | ["oc", t, h, h2] => do pure (.orCurrent (← t.toNat?) (hk (← h.toNat?)) (hk (← h2.toNat?)))
   | ["in", h, f] => do pure (.instrument (hk (← h.toNat?)) (fk (← f.toNat?)))
